@@ -1,19 +1,25 @@
 ------------------------------- MODULE Rules -------------------------------
 (***************************************************************************)
 (* The declarative layer: what the rules of poker and the documentation    *)
-(* say must be true of a state / of a step, stated independently of the    *)
-(* bookkeeping of the operational model.  Every rule has a name; the trace *)
-(* specs report the set of broken rule names, the MC_* instances check     *)
-(* each rule as an invariant of the operational model.                     *)
+(* say must be true of a state, of a step, or of the history of a hand -   *)
+(* stated independently of the bookkeeping of the operational model        *)
+(* (PokerKit.tla) and of the implementation.  Every rule has a name.  The  *)
+(* MC_* instances check each rule on every reachable state of the model;   *)
+(* the trace specifications evaluate them on every observed state of the   *)
+(* real code and report the names of the broken ones.                      *)
 (*                                                                         *)
-(* A state St is an abstract state of PokerKit.tla; in trace specs it also *)
-(* carries the implementation's own reports: St.pots (the `pots` property) *)
+(*   St    an abstract state of PokerKit.tla; observed states also carry   *)
+(*         the implementation's own pots report St.pots                    *)
+(*   full  the operation log of the hand so far (records k, p, amt, ...)   *)
 (***************************************************************************)
 EXTENDS PokerKit
 
 SetOfSeq(s) == {s[i] : i \in DOMAIN s}
 AllCards(St) == St.deck \o Flat(St.board) \o Flat(St.hole) \o St.burn \o St.muck \o Flat(St.disc)
 NoDup(s) == \A i, j \in DOMAIN s : i # j => s[i] # s[j]
+LiveSet(St) == {i \in DOMAIN St.alive : St.alive[i]}
+CountT(s) == Cardinality({k \in DOMAIN s : s[k]})
+LastIdx(s, P(_)) == Max({0} \cup {j \in DOMAIN s : P(s[j])})
 
 (***************************************************************************)
 (* C01: chips                                                              *)
@@ -36,18 +42,376 @@ CardsPartition(C, St) ==
   LET known == KnownOnly(AllCards(St)) IN NoDup(known) /\ SetOfSeq(known) = SetOfSeq(C.deckcards)
 
 (***************************************************************************)
+(* C07: phases.  While the hand is on exactly one phase has work pending   *)
+(* and its default operation is available; when it is over none has.       *)
+(***************************************************************************)
+Phases(St) ==
+  (IF AnyT(St.antePend) THEN {"ante"} ELSE {}) \cup (IF St.collPend THEN {"collect"} ELSE {})
+  \cup (IF AnyT(St.blindPend) THEN {"blind"} ELSE {}) \cup (IF DealingPending(St) THEN {"dealing"} ELSE {})
+  \cup (IF St.actors # <<>> THEN {"betting"} ELSE {})
+  \cup (IF St.street # 0 /\ (AnyT(St.selPend) \/ St.showq # <<>>) THEN {"showdown"} ELSE {})
+  \cup (IF AnyT(St.killPend) THEN {"killing"} ELSE {}) \cup (IF St.subpots # <<>> THEN {"pushing"} ELSE {})
+  \cup (IF AnyT(St.pullPend) THEN {"pulling"} ELSE {})
+OnePhase(St) == IF St.status THEN Cardinality(Phases(St)) = 1 ELSE Phases(St) = {}
+PhaseOps(ph) ==
+  CASE ph = "ante" -> {"post_ante"} [] ph = "collect" -> {"collect_bets"} [] ph = "blind" -> {"post_blind_or_straddle"}
+    [] ph = "dealing" -> {"stand_pat_or_discard", "burn_card", "deal_hole", "deal_board"}
+    [] ph = "betting" -> {"check_or_call", "post_bring_in"}
+    [] ph = "showdown" -> {"select_runout_count", "show_or_muck_hole_cards"}
+    [] ph = "killing" -> {"kill_hand"} [] ph = "pushing" -> {"push_chips"} [] ph = "pulling" -> {"pull_chips"}
+\* a hand with unknown cards at a showdown cannot be tabled as it is: outside the quantifier of C07 ("hands reaching a showdown are known")
+UnknownAtShowdown(St) == St.showq # <<>> /\ AnyUnknown(St.hole[Head(St.showq)])
+SomethingToDo(C, St) ==
+  (St.status /\ Cardinality(Phases(St)) = 1 /\ ~UnknownAtShowdown(St))
+     => \E ph \in Phases(St) : \E op \in PhaseOps(ph) : Guard([C EXCEPT !.werr = FALSE], St, op, NoArgs)
+
+PhaseOfKind(k) ==
+  CASE k = "AP" -> "ante" [] k = "BC" -> "collect" [] k = "BP" -> "blind" [] k \in {"CB", "HD", "BD", "SD"} -> "dealing"
+    [] k \in {"F", "CC", "BI", "CBR"} -> "betting" [] k \in {"RS", "SM"} -> "showdown" [] k = "HK" -> "killing"
+    [] k = "PUSH" -> "pushing" [] k = "PULL" -> "pulling" [] OTHER -> "none"
+\* the documented order of phases: which phase may follow which (a phase with nothing to do is passed over)
+MayFollow(a, b) ==
+  CASE a = "start" -> b \in {"ante", "blind", "dealing"}
+    [] a = "ante" -> b \in {"ante", "collect"}
+    [] a = "collect" -> b \in {"blind", "dealing", "showdown", "killing", "pushing", "pulling"}
+    [] a = "blind" -> b \in {"blind", "dealing"}
+    [] a = "dealing" -> b \in {"dealing", "betting", "collect", "showdown", "killing", "pushing", "pulling"}
+    [] a = "betting" -> b \in {"betting", "collect", "dealing", "showdown", "killing", "pushing", "pulling"}
+    [] a = "showdown" -> b \in {"showdown", "dealing", "killing", "pushing", "pulling"}
+    [] a = "killing" -> b \in {"killing", "pushing", "pulling"}
+    [] a = "pushing" -> b \in {"pushing", "pulling"}
+    [] a = "pulling" -> b = "pulling"
+\* the kinds of the operations of a log, no-operations and (see TraceOps) non-standard shows left out
+PhaseSeq(log) == LET ks == SelectSeq([j \in DOMAIN log |-> PhaseOfKind(log[j].k)], LAMBDA x : x # "none") IN ks
+OrderOK(before, appended) ==
+  LET b == PhaseSeq(before)
+      a == PhaseSeq(appended)
+      s == (IF b = <<>> THEN <<"start">> ELSE <<b[Len(b)]>>) \o a
+  IN \A j \in 1..(Len(s) - 1) : MayFollow(s[j], s[j + 1])
+
+\* a bound on the number of operations of a hand (no-operations and non-standard shows not counted): every hand ends
+OpsBound(C, runouts) ==
+  LET n == C.n
+      chipsTotal == SumS(C.stacks0)
+      perStreet == 1 + n * 8 + 8 * C.boards0 * runouts + n + n * (chipsTotal + 2) + 1 + 2 * n
+  IN 2 * n + 1 + NStreets(C) * runouts * perStreet + n + runouts * n * C.boards0 * 2 * n + n
+
+(***************************************************************************)
+(* Committed chips from the log alone: what every player has irrevocably   *)
+(* put in (uncalled parts returned at collection taken off again).         *)
+(***************************************************************************)
+\* com: what a player has irrevocably put in (the part of a bet that nobody called is taken off again when bets are
+\* collected); col: what of it was collected into the pots (a lone survivor's last bet stays in front of him and is pulled
+\* back, matched part included)
+SecondLargest(bet) == LET s == SortSeq([i \in DOMAIN bet |-> bet[i]], <) IN IF Len(s) < 2 THEN 0 ELSE s[Len(s) - 1]
+RECURSIVE ComWalk(_, _, _, _, _)
+ComWalk(log, j, com, col, bet) ==
+  IF j > Len(log) THEN [com |-> com, col |-> col, bet |-> bet]
+  ELSE LET r == log[j] IN
+       CASE r.k \in {"AP", "BP", "CC", "BI"} -> ComWalk(log, j + 1, [com EXCEPT ![r.p] = @ + r.amt], col, [bet EXCEPT ![r.p] = @ + r.amt])
+         [] r.k = "CBR" -> ComWalk(log, j + 1, [com EXCEPT ![r.p] = @ + (r.amt - bet[r.p])], col, [bet EXCEPT ![r.p] = r.amt])
+         [] r.k = "BC" ->
+              LET cut == SecondLargest(bet)
+                  back(i) == IF r.amts[i] = 0 /\ bet[i] > 0 THEN MaxI(0, bet[i] - cut) ELSE bet[i] - r.amts[i]
+              IN ComWalk(log, j + 1, [i \in DOMAIN com |-> com[i] - back(i)], [i \in DOMAIN col |-> col[i] + r.amts[i]], [i \in DOMAIN bet |-> 0])
+         [] OTHER -> ComWalk(log, j + 1, com, col, bet)
+Committed(C, log) == ComWalk(log, 1, [i \in Pl(C) |-> 0], [i \in Pl(C) |-> 0], [i \in Pl(C) |-> 0])
+
+(***************************************************************************)
+(* C02: who gets what.  Stated by eligibility set, not by the level loop:  *)
+(* the chip lying at height l of a player's column of committed chips      *)
+(* belongs to the pot whose eligible players are the live players who      *)
+(* committed at least l.  Antes that are not trimmed are dead money of the *)
+(* lowest layer.  Each pot is raked once, divided evenly over the boards   *)
+(* (odd chips to the first), each board's part evenly over the hand types  *)
+(* for which an eligible player has a hand (odd chips to the first), each  *)
+(* of those among the best hands (odd chips to the earliest position).     *)
+(***************************************************************************)
+EligPots(C, St, collected) ==
+  LET N == Pl(C)
+      sub(i) == IF C.trim THEN 0 ELSE EffAnte(C, i)
+      col == [i \in N |-> collected[i] - sub(i)]
+      lone == Cardinality(LiveSet(St)) = 1
+      E(l) == IF lone THEN LiveSet(St) ELSE {j \in N : St.alive[j] /\ col[j] >= l}
+      top == Max({col[i] : i \in N} \cup {0})
+      low == Min({col[i] : i \in N})
+      Layer(l) == Cardinality({i \in N : col[i] >= l})
+      pooled == IF C.trim THEN 0 ELSE SumS([i \in N |-> EffAnte(C, i)])
+      Sets == {E(l) : l \in 1..top} \cup (IF pooled > 0 THEN {E(low)} ELSE {})
+      Amt(X) == SumS([l \in 1..top |-> IF E(l) = X THEN Layer(l) ELSE 0]) + (IF X = E(low) THEN pooled ELSE 0)
+  IN {[players |-> X, amount |-> Amt(X)] : X \in {Y \in Sets : Amt(Y) > 0}}
+
+Split(amount, k, j) == (amount \div k) + (IF j = 1 THEN amount % k ELSE 0)      \* the j-th of k even parts, odd chips to the first
+
+\* what player i is awarded from a pot with eligible set X and unraked amount u
+AwardFromPot(C, St, X, u, i) ==
+  IF Cardinality(LiveSet(St)) = 1 THEN (IF i \in X THEN u ELSE 0)
+  ELSE LET bc == BoardCount(C, St)
+           perBoard(b) ==
+             LET ub == Split(u, bc, b)
+                 tys == SetToSortSeq({t \in DOMAIN C.types : \E x \in X : HandStr(C, St, x, b, t) # NoHand}, <)
+                 perType(jt) ==
+                   LET t == tys[jt]
+                       ut == Split(ub, Len(tys), jt)
+                       best == Max({HandStr(C, St, x, b, t) : x \in X})
+                       win == SetToSortSeq({x \in X : HandStr(C, St, x, b, t) = best}, <)
+                   IN IF \E w \in DOMAIN win : win[w] = i THEN Split(ut, Len(win), IndexOf(win, i)) ELSE 0
+             IN SumS([jt \in DOMAIN tys |-> perType(jt)])
+       IN SumS([b \in 1..bc |-> perBoard(b)])
+
+PushedTo(C, log, i) == SumS([j \in DOMAIN log |-> IF log[j].k = "PUSH" THEN log[j].amts[i] ELSE 0])
+AwardRule(C, St, full) ==
+  LET col == Committed(C, full).col
+      pots == EligPots(C, St, col)
+      ps == SetToSeq(pots)
+      un(k) == Rake(C, St, ps[k].amount)[2]
+  IN \A i \in Pl(C) : PushedTo(C, full, i) = SumS([k \in DOMAIN ps |-> AwardFromPot(C, St, ps[k].players, un(k), i)])
+AwardCorollaries(C, St, full) ==
+  LET com == Committed(C, full).com IN
+  /\ \A i \in Pl(C) : ~St.alive[i] => PushedTo(C, full, i) = 0                       \* folded, mucked, killed: nothing
+  \* nobody wins more from an opponent than he put in (antes that are configured not to be trimmed are dead money by design)
+  /\ (C.trim \/ \A j \in Pl(C) : EffAnte(C, j) = 0) => \A i \in Pl(C) : St.payoffs[i] <= SumS([j \in Pl(C) |-> IF j = i THEN 0 ELSE MinI(com[j], com[i])])
+  /\ \A i \in Pl(C) : St.payoffs[i] >= 0 - com[i]
+\* applicable when the hand is over, somebody is still in, and every pot has an eligible live player with a tabled hand
+AwardApplicable(C, St) == ~St.status /\ St.fault = "" /\ LiveSet(St) # {} /\ ~OrphanPot(C, St, St.fpots)
+
+(***************************************************************************)
+(* C03: betting, as a predicate over the history of the round.             *)
+(*   r.b0    bets in front when the round started (the blinds)             *)
+(*   r.q0    order of action at that moment (C13)                          *)
+(*   r.hist  events of the round [k, p, to, left]: kind, player, his bet   *)
+(*           in front after the event, his stack after it                  *)
+(***************************************************************************)
+MaxSeq(s) == Max(SetOfSeq(s) \cup {0})
+MaxBefore(r, j) == MaxI(MaxSeq(r.b0), Max({r.hist[x].to : x \in 1..(j - 1)} \cup {0}))
+IsRaise(r, j) == r.hist[j].k = "raise"
+Inc(r, j) == r.hist[j].to - MaxBefore(r, j)
+Raises(r) == {j \in DOMAIN r.hist : IsRaise(r, j)}
+Largest(r, upto) == Max({Inc(r, j) : j \in {x \in Raises(r) : x <= upto}} \cup {0})
+FullRaise(r, j) == IsRaise(r, j) /\ Inc(r, j) >= Largest(r, j - 1)
+LastFull(r) == Max({j \in Raises(r) : FullRaise(r, j)} \cup {0})
+ActedSinceFull(r) == {r.hist[j].p : j \in {x \in DOMAIN r.hist : x >= LastFull(r) /\ x >= 1}}
+LastCoveredRaise(r) == Max({j \in Raises(r) : r.hist[j].left > 0} \cup {0})
+ShortRun(r) == {j \in Raises(r) : j > LastCoveredRaise(r)}
+ShortSum(r) == SumS([j \in 1..Len(r.hist) |-> IF j \in ShortRun(r) THEN Inc(r, j) ELSE 0])
+LastRaise(r) == Max(Raises(r) \cup {0})
+Clockwise(n, p) == [k \in 1..(n - 1) |-> ((p - 1 + k) % n) + 1]
+CanStillAct(r, i) == r.alive[i] /\ r.stacks[i] > 0
+ActedIn(r, i, from) == \E j \in DOMAIN r.hist : j > from /\ r.hist[j].p = i
+Queue(r) ==
+  IF LastRaise(r) = 0 THEN SelectSeq(r.q0, LAMBDA i : ~ActedIn(r, i, 0))
+  ELSE SelectSeq(Clockwise(r.n, r.hist[LastRaise(r)].p), LAMBDA i : CanStillAct(r, i) /\ ~ActedIn(r, i, LastRaise(r)))
+LiveCount(r) == Cardinality({i \in 1..r.n : r.alive[i]})
+ActorR(r) == IF Queue(r) = <<>> \/ LiveCount(r) <= 1 THEN 0 ELSE Head(Queue(r))
+BringInPending(r) == r.bringin > 0 /\ r.first /\ r.hist = <<>>
+CompletionPending(r) == r.bringin > 0 /\ r.first /\ Raises(r) = {}
+MaxBetR(r) == MaxSeq(r.bets)
+CanFoldR(r) == LET a == ActorR(r) IN a # 0 /\ ~BringInPending(r) /\ (~r.tournament \/ r.bets[a] < MaxBetR(r))
+CanCallR(r) == ActorR(r) # 0 /\ ~BringInPending(r)
+CallAmtR(r) == LET a == ActorR(r) IN MinI(r.stacks[a], MaxBetR(r) - r.bets[a])
+EffStackR(r, a) ==
+  LET tot == SortSeq(SelectSeq([j \in 1..r.n |-> IF r.alive[j] THEN r.bets[j] + r.stacks[j] ELSE -1], LAMBDA x : x >= 0), <)
+  IN MinI(r.stacks[a], MaxI(0, tot[Len(tot) - 1] - r.bets[a]))
+RaiseAllowedR(r) ==
+  LET a == ActorR(r) IN
+  /\ a # 0
+  /\ Cardinality(Raises(r)) # r.cap
+  /\ ~(ShortRun(r) # {} /\ ShortSum(r) < Largest(r, Len(r.hist)) /\ a \in ActedSinceFull(r))
+  /\ r.stacks[a] > MaxBetR(r) - r.bets[a]
+  /\ \E j \in 1..r.n : j # a /\ r.alive[j] /\ r.stacks[j] + r.bets[j] > MaxBetR(r)
+MinToR(r) == LET a == ActorR(r) IN
+  MinI(EffStackR(r, a) + r.bets[a], MaxI(Largest(r, Len(r.hist)), r.smin) + (IF CompletionPending(r) THEN 0 ELSE MaxBetR(r)))
+MaxToR(r) == LET a == ActorR(r)
+                 all == r.stacks[a] + r.bets[a] IN
+  CASE r.struct = "Fixed-limit" -> MinToR(r)
+    [] r.struct = "No-limit" -> all
+    [] r.struct = "Pot-limit" -> MinI(all, MaxI(MinToR(r), 2 * MaxBetR(r) - r.bets[a] + SumS(r.bets) + r.collected))
+CanRaiseToR(r, x) == RaiseAllowedR(r) /\ x >= MinToR(r) /\ x <= MaxToR(r)
+
+\* the round record of a state with a betting round in progress, from the log of the hand
+RoundStart(full) == LastIdx(full, LAMBDA x : x.k \notin {"F", "CC", "BI", "CBR", "NOP"})
+RECURSIVE HistWalk(_, _, _, _, _)
+HistWalk(ev, j, bet, stack, acc) ==
+  IF j > Len(ev) THEN acc
+  ELSE LET r == ev[j]
+           p == r.p
+           to == CASE r.k = "F" -> bet[p] [] r.k \in {"CC", "BI"} -> bet[p] + r.amt [] r.k = "CBR" -> r.amt
+           left == stack[p] - (to - bet[p])
+           kind == CASE r.k = "F" -> "fold" [] r.k = "CC" -> "call" [] r.k = "BI" -> "bringin" [] r.k = "CBR" -> "raise"
+       IN HistWalk(ev, j + 1, [bet EXCEPT ![p] = to], [stack EXCEPT ![p] = left], Append(acc, [k |-> kind, p |-> p, to |-> to, left |-> left]))
+RoundRec(C, St, full) ==
+  LET s == RoundStart(full)
+      ev == SelectSeq(SubSeq(full, s + 1, Len(full)), LAMBDA x : x.k # "NOP")
+      N == Pl(C)
+      added(i) == SumS([j \in DOMAIN ev |-> IF ev[j].p = i /\ ev[j].k \in {"CC", "BI"} THEN ev[j].amt ELSE 0])
+      \* what was in front of a player and behind him when the round started
+      raisedTo(i) == LET js == {j \in DOMAIN ev : ev[j].p = i /\ ev[j].k = "CBR"} IN IF js = {} THEN -1 ELSE ev[Max(js)].amt
+      b0 == [i \in N |-> IF St.street = 1 THEN SumS([j \in 1..s |-> IF full[j].k = "BP" /\ full[j].p = i THEN full[j].amt ELSE 0]) ELSE 0]
+      stack0 == [i \in N |-> St.stacks[i] + (St.bets[i] - b0[i])]
+      alive0 == [i \in N |-> St.alive[i] \/ \E j \in DOMAIN ev : ev[j].p = i /\ ev[j].k = "F"]
+      S0 == [St EXCEPT !.stacks = stack0, !.bets = b0, !.alive = alive0, !.hole = [i \in N |-> IF alive0[i] /\ ~St.alive[i] THEN <<>> ELSE @[i]]]
+  IN [n |-> C.n, b0 |-> b0, hist |-> HistWalk(ev, 1, b0, stack0, <<>>), stacks |-> St.stacks, bets |-> St.bets, alive |-> St.alive,
+      smin |-> StreetOf(C, St).minbet, cap |-> StreetOf(C, St).maxcnt, struct |-> C.structure, tournament |-> C.tournament,
+      bringin |-> C.bringin, first |-> St.street = 1, collected |-> PotTotal(PotsOf(C, St)),
+      stack0 |-> stack0, alive0 |-> alive0]
+
+\* the rule itself: who is to act and what he may do, compared with what the state says (q0 is C13's business: taken from
+\* the state's own opening order at the start of the round, i.e. the first actor of the round followed clockwise)
+BettingRuleHolds(C, St, full) ==
+  St.actors # <<>> =>
+    LET r0 == RoundRec(C, St, full)
+        first == IF r0.hist = <<>> THEN Head(St.actors) ELSE r0.hist[1].p
+        able0(i) == r0.alive0[i] /\ r0.stack0[i] > 0 /\
+                    LET tot == SortSeq(SelectSeq([j \in 1..C.n |-> IF r0.alive0[j] THEN r0.b0[j] + r0.stack0[j] ELSE -1], LAMBDA x : x >= 0), <)
+                    IN MinI(r0.stack0[i], MaxI(0, tot[Len(tot) - 1] - r0.b0[i])) > 0
+        r == [r0 EXCEPT !.n = C.n] @@ [q0 |-> SelectSeq(Rot(C.n, first), able0)]
+        a == ActorR(r)
+    IN /\ a = Head(St.actors)
+       /\ CanFoldR(r) = (V_Fold(C, St, NoArgs) # "refuse")      \* cash games: a fold without a bet to face is allowed (warned about)
+       /\ CanCallR(r) = (V_CheckCall(C, St, NoArgs) = "ok")
+       /\ BringInPending(r) = (V_BringIn(C, St, NoArgs) = "ok")
+       /\ (CanCallR(r) => CallAmtR(r) = CallAmount(St))
+       /\ RaiseAllowedR(r) = RaiseGate(C, St)
+       /\ (RaiseAllowedR(r) => MinToR(r) = MinTo(C, St) /\ MaxToR(r) = MaxTo(C, St))
+
+(***************************************************************************)
+(* C13: who opens a betting round.                                         *)
+(***************************************************************************)
+\* order in which forced blinds are posted: heads-up the small blind is the button (second seat) and the big blind the first
+PostsBlind(C, i) == IF C.n = 2 THEN C.blinds[3 - i] ELSE C.blinds[i]
+StandardBlinds(C) ==         \* positive blinds on a prefix of the seats, non-decreasing; late posts (negative) anywhere after
+  LET pos == {i \in Pl(C) : C.blinds[i] > 0} IN
+  /\ pos # {} /\ pos = 1..Cardinality(pos)
+  /\ \A i, j \in pos : i < j => C.blinds[i] <= C.blinds[j]
+DesignatedPosition(C, St) ==
+  IF St.street = 1 /\ StandardBlinds(C)
+  THEN LET posters == {i \in Pl(C) : PostsBlind(C, i) > 0}
+           \* the last blind or straddle: the biggest; heads-up the big blind sits first
+           big == Max({PostsBlind(C, i) : i \in posters})
+           last == IF C.n = 2 THEN Min({i \in posters : PostsBlind(C, i) = big}) ELSE Max({i \in posters : PostsBlind(C, i) = big})
+       IN (last % C.n) + 1
+  ELSE 1                                                        \* first seat after the button
+DesignatedStud(C, St) ==
+  LET st == StreetOf(C, St)
+      P == {i \in Pl(C) : St.alive[i] /\ UpCards(St, i) # <<>> /\ ~AnyUnknown(UpCards(St, i))}
+      ups(i) == ToSetS(UpCards(St, i))
+  IN IF P = {} \/ \E i \in P : Len(UpCards(St, i)) > 4 THEN 1
+     ELSE CASE st.opening = "Low card" -> CHOOSE i \in P : \A j \in P : Min({CardKey("hi", c) : c \in ups(i)}) <= Min({CardKey("hi", c) : c \in ups(j)})
+            [] st.opening = "High card" -> CHOOSE i \in P : \A j \in P : Max({CardKey("lo", c) : c \in ups(j)}) <= Max({CardKey("lo", c) : c \in ups(i)})
+            [] st.opening = "High hand" -> Min({i \in P : \A j \in P : ExposedKey("hi", UpCards(St, i)) >= ExposedKey("hi", UpCards(St, j))})
+            [] st.opening = "Low hand" -> Min({i \in P : \A j \in P : ExposedKey("lo", UpCards(St, i)) <= ExposedKey("lo", UpCards(St, j))})
+\* applicable when a betting round has just begun; S0 is the state as the round began (stacks and bets before any action)
+OpenerRuleHolds(C, St, full) ==
+  (St.actors # <<>> /\ RoundStart(full) = Len(full)) =>
+    LET st == StreetOf(C, St)
+        des == IF st.opening = "Position" THEN DesignatedPosition(C, St) ELSE DesignatedStud(C, St)
+        able(i) == St.alive[i] /\ St.stacks[i] > 0 /\ EffStack(C, St, i) > 0
+        q == SelectSeq(Rot(C.n, des), able)
+        applicable == /\ st.opening # "Position" \/ St.street > 1 \/ StandardBlinds(C)
+                      /\ st.opening \in {"High hand", "Low hand"} => \A i \in Pl(C) : Len(UpCards(St, i)) <= 4
+    IN applicable => (q # <<>> /\ Head(St.actors) = Head(q))
+
+(***************************************************************************)
+(* C10: dealing.                                                           *)
+(***************************************************************************)
+HoleDue(C, s) == SumS([k \in 1..s |-> Len(C.streets[k].hole)])
+UpDue(C, s) == SumS([k \in 1..s |-> CountT(C.streets[k].hole)])
+BoardDue(C, s) == SumS([k \in 1..s |-> C.streets[k].board])
+\* when a betting round is on: everybody still in has exactly the cards the streets so far prescribe (a stud street that
+\* the deck could not cover having gone to the board instead), face up as prescribed; folded players hold nothing
+DealtAsPrescribed(C, St) ==
+  (St.actors # <<>> /\ St.street # 0) =>
+    LET s == St.street
+        extra == Len(St.board) - BoardDue(C, s)          \* rows of shared cards dealt in place of hole cards
+    IN /\ extra >= 0
+       /\ \A i \in Pl(C) : IF St.alive[i] THEN /\ Len(St.hole[i]) + extra = HoleDue(C, s)
+                                               /\ Len(St.up[i]) = Len(St.hole[i])
+                                               /\ extra = 0 => CountT(St.up[i]) = UpDue(C, s)
+                           ELSE St.hole[i] = <<>>
+\* within the dealing of one street (the log since the last betting action or collection): a burn exactly when prescribed and
+\* before any card of the street; every discard before the burn
+StreetSegment(full) == LET s == LastIdx(full, LAMBDA x : x.k \in {"F", "CC", "BI", "CBR", "BC", "BP", "AP", "RS", "SM"}) IN SubSeq(full, s + 1, Len(full))
+BurnDiscipline(C, St, full) ==
+  (St.actors # <<>> /\ St.street # 0 /\ RoundStart(full) = Len(full)) =>
+    LET seg == SelectSeq(StreetSegment(full), LAMBDA x : x.k \in {"CB", "HD", "BD", "SD"})
+        burns == {j \in DOMAIN seg : seg[j].k = "CB"}
+    IN /\ Cardinality(burns) = IF StreetOf(C, St).burn THEN 1 ELSE 0
+       /\ \A j \in burns : \A x \in DOMAIN seg : (seg[x].k \in {"HD", "BD"} => j < x) /\ (seg[x].k = "SD" => x < j)
+
+(***************************************************************************)
+(* C14: run-outs.                                                          *)
+(***************************************************************************)
+RunoutOffer(C, St) ==
+  AnyT(St.selPend) => /\ ~C.tournament
+                      /\ \E k \in (St.street + 1)..NStreets(C) : C.streets[k].board > 0
+                      /\ \A i \in Pl(C) : St.selPend[i] => St.alive[i]
+RunoutChoices(full) == SelectSeq([j \in DOMAIN full |-> IF full[j].k = "RS" THEN full[j].amt ELSE -1], LAMBDA x : x > 0)
+Consensus(full) == LET c == RunoutChoices(full) IN IF c = <<>> THEN 0 ELSE IF \A j \in DOMAIN c : c[j] = c[1] THEN c[1] ELSE 1
+RunoutConsensus(C, St, full) == St.runout = Consensus(full)
+SelectedOnce(full) == \A i, j \in DOMAIN full : (i # j /\ full[i].k = "RS" /\ full[j].k = "RS") => full[i].p # full[j].p
+RunoutBoards(C, St, full) ==
+  (~St.status /\ Cardinality(LiveSet(St)) > 1 /\ St.fault = "") =>
+    LET r == IF St.retIdx # 0 THEN St.runout ELSE 1
+        bc == BoardCount(C, St)
+    IN /\ bc = C.boards0 * r
+       /\ (C.tournament => r = 1)
+       /\ \A b \in 1..bc : Len(BoardCards(C, St, b)) = Len(St.board) /\ Len(St.board) >= BoardDue(C, NStreets(C))      \* every board complete
+       /\ St.retIdx # 0 =>          \* the run-outs of one starting board share what was dealt before the all-in
+            \A b1, b2 \in 1..bc : ((b1 - 1) \div r = (b2 - 1) \div r) =>
+               SubSeq(BoardCards(C, St, b1), 1, BoardDue(C, St.retIdx - 1)) = SubSeq(BoardCards(C, St, b2), 1, BoardDue(C, St.retIdx - 1))
+
+(***************************************************************************)
+(* C12: automatic mucking and killing.  A hand can still win when, for     *)
+(* some pot it is eligible for, some board and some hand type, it is at    *)
+(* least as good as everything the pot's other players have tabled.        *)
+(***************************************************************************)
+CanStillWin(C, St, i) ==
+  LET pots == PotsOf(C, St) IN
+  \E k \in DOMAIN pots : InSeq(pots[k].players, i) /\
+     \E b \in 1..BoardCount(C, St), t \in DOMAIN C.types :
+        LET h == HandStr(C, St, i, b, t) IN
+        h # NoHand /\ \A x \in DOMAIN pots[k].players : LET j == pots[k].players[x] IN j = i \/ UpStr(C, St, j, b, t) <= h
+\* for a step that showed/mucked/killed by the engine's own decision: never throw away a hand that can still win
+AutoDecisionOK(C, pre, op, A, post) ==
+  /\ (op = "show_or_muck_hole_cards" /\ A.mode = "default" /\ pre.street # 0 /\ pre.showq # <<>>) =>
+        LET p == ShowP(pre, A) IN
+        (p # 0 /\ CanStillWin(C, pre, p)) => ~\E j \in DOMAIN post.log : post.log[j].k = "SM" /\ post.log[j].p = p /\ post.log[j].cards = <<>>
+  /\ (op = "kill_hand" /\ AnyT(pre.killPend)) => ~CanStillWin(C, pre, KillP(pre, A))
+
+(***************************************************************************)
 (* collected                                                               *)
 (***************************************************************************)
+BrokenOf(r) == {f \in DOMAIN r : ~r[f]}
+NoFault(St) == St.fault = ""
+
+\* rules of a state alone (every reachable model state; every observed state)
 StateRules(C, St, pots) ==
   [ C01_conserved |-> ChipsConserved(C, St.stacks, St.bets, pots),
     C01_nonneg |-> ChipsNonNeg(St.stacks, St.bets, pots),
     C01_payoff |-> PayoffIdentity(C, St.stacks, St.payoffs),
     C01_terminal |-> TerminalNothingLeft(C, St, pots),
-    C06_partition |-> CardsPartition(C, St) ]
+    C06_partition |-> CardsPartition(C, St),
+    C07_one_phase |-> NoFault(St) => OnePhase(St),
+    C07_something_to_do |-> NoFault(St) => SomethingToDo(C, St),
+    C10_dealt_as_prescribed |-> NoFault(St) => DealtAsPrescribed(C, St),
+    C14_offer |-> RunoutOffer(C, St) ]
+\* rules that need the history of the hand (evaluated by name, so that a run deciding one property pays for its rules only)
+HistoryRuleNames == {"C02_award", "C02_corollaries", "C03_betting", "C07_bound", "C10_burns", "C13_opener", "C14_consensus", "C14_once",
+                     "C14_boards"}
+HistoryRule(nm, C, St, full) ==
+  CASE nm = "C02_award" -> AwardApplicable(C, St) => AwardRule(C, St, full)
+    [] nm = "C02_corollaries" -> AwardApplicable(C, St) => AwardCorollaries(C, St, full)
+    [] nm = "C03_betting" -> NoFault(St) => BettingRuleHolds(C, St, full)
+    [] nm = "C07_bound" -> Len(SelectSeq(full, LAMBDA x : x.k \notin {"NOP", "SM", "SMX"})) <= OpsBound(C, Max({1} \cup SetOfSeq(RunoutChoices(full))))
+    [] nm = "C10_burns" -> NoFault(St) => BurnDiscipline(C, St, full)
+    [] nm = "C13_opener" -> NoFault(St) => OpenerRuleHolds(C, St, full)
+    [] nm = "C14_consensus" -> RunoutConsensus(C, St, full)
+    [] nm = "C14_once" -> SelectedOnce(full)
+    [] nm = "C14_boards" -> RunoutBoards(C, St, full)
 
-BrokenOf(r) == {f \in DOMAIN r : ~r[f]}
 \* St is an observed state (it carries its own pots report)
 BrokenRules(C, St) == BrokenOf(StateRules(C, St, St.pots))
+BrokenHistoryRules(C, St, full, wanted) == {nm \in HistoryRuleNames \cap wanted : ~HistoryRule(nm, C, St, full)}
 
 \* a snapshot taken right after one operation inside a call
 BrokenMicroRules(C, mic) ==
@@ -55,11 +419,20 @@ BrokenMicroRules(C, mic) ==
              C01_nonneg |-> ChipsNonNeg(mic.stacks, mic.bets, mic.pots),
              C01_payoff |-> PayoffIdentity(C, mic.stacks, mic.payoffs) ])
 
-\* rules about a step (pre-state, operation, arguments, post-state); filled in per property
-BrokenStepRules(C, pre, op, A, post) == {}
+\* rules about a step (pre-state, operation, arguments, post-state, log before the step)
+BrokenStepRules(C, pre, op, A, post, before) ==
+  BrokenOf([ C07_order |-> (op = "show_or_muck_hole_cards" /\ pre.street = 0) \/ OrderOK(before, post.log),
+             C12_auto_decision |-> AutoDecisionOK(C, pre, op, A, post) ])
 
 RulesOf(p) ==
   CASE p = "C01" -> {"C01_conserved", "C01_nonneg", "C01_payoff", "C01_terminal"}
+    [] p = "C02" -> {"C02_award", "C02_corollaries"}
+    [] p = "C03" -> {"C03_betting"}
     [] p = "C06" -> {"C06_partition"}
+    [] p = "C07" -> {"C07_one_phase", "C07_something_to_do", "C07_order", "C07_bound"}
+    [] p = "C10" -> {"C10_dealt_as_prescribed", "C10_burns"}
+    [] p = "C12" -> {"C12_auto_decision"}
+    [] p = "C13" -> {"C13_opener"}
+    [] p = "C14" -> {"C14_offer", "C14_consensus", "C14_once", "C14_boards"}
     [] OTHER -> {}
 =============================================================================
